@@ -2,6 +2,7 @@
 //! operations and observations of coq/Model/Session.v (encodings of coq/Api/Session.v).
 use crate::common::*;
 use crate::pki::Pki;
+use isomdl::definitions::x509::trust_anchor::TrustPurpose;
 use crate::sess::{self, *};
 use ciborium::Value;
 use isomdl::definitions::device_request::ItemsRequest;
@@ -116,7 +117,10 @@ impl World {
             held.push(i);
         }
         let specs = request_specs();
-        let e = sess::establish(sess::documents_of(mdocs.clone()), None, &specs[0], Default::default(), Default::default())
+        // non-empty registries with BOTH purposes on each side, so that a serialised session carries trust anchors
+        let rdr_reg = sess::registry(vec![(pki.iaca.clone(), TrustPurpose::Iaca), (pki.reader_ca.clone(), TrustPurpose::ReaderCa)]);
+        let dev_reg = sess::registry(vec![(pki.reader_ca.clone(), TrustPurpose::ReaderCa), (pki.iaca.clone(), TrustPurpose::Iaca)]);
+        let e = sess::establish(sess::documents_of(mdocs.clone()), None, &specs[0], rdr_reg, dev_reg)
             .expect("establish");
         // a parallel session whose messages serve as "foreign" deliveries
         let f = sess::establish(sess::documents_of(mdocs), None, &specs[0], Default::default(), Default::default())
